@@ -458,3 +458,13 @@ Theorem C03_escape_in_sentence_hypotheses :
   (esc_ok ($"not ") 42%Z ($"emphasis") = true) /\ (esc_ok [] 96%Z [] = false) /\ (esc_ok [] 97%Z [] = false).
 Proof. split; [exact esc_configs|]. vm_compute. repeat split; reflexivity. Qed.
 Print Assumptions C03_escape_in_sentence_hypotheses.
+
+(* an IMAGE inside a sentence (Proofs/ImageSentence.v): pre ![w](dest) post under the hypotheses of C03_link_in_sentence tokenizes to the
+   text, one Image of dest holding w as its description, the text: the scanner's two steps at "!" and "[" (the image flag, ONE delimiter
+   for the two characters), match_link_image on that delimiter, no deactivation of earlier brackets *)
+From Mistletoe Require Import Proofs.ImageSentence.
+Theorem C03_image_in_sentence : forall types fn pre w dest post,
+  ref_spans types = true -> ilink_ok pre w dest post = true ->
+  Inline.tokenize_inner types fn (pre ++ [33%Z; 91%Z] ++ w ++ [93%Z; 40%Z] ++ dest ++ [41%Z] ++ post) = EmphSentence.raw_if pre ++ [image_of w dest] ++ EmphSentence.raw_if post.
+Proof. exact image_in_sentence. Qed.
+Print Assumptions C03_image_in_sentence.
